@@ -2,9 +2,13 @@
 """Regenerates /verif/MANIFEST.json from lib/props.py and lib/manifest_meta.py."""
 import json, os, sys
 ROOT = os.path.dirname(os.path.dirname(os.path.abspath(__file__)))
-sys.path.insert(0, os.path.join(ROOT, "lib"))
-from props import PROPS
-from manifest_meta import META, NOT_APPLICABLE, HOOK_COMMITS
+import glob, subprocess
+PROPS = {os.path.basename(f)[:-5]: json.load(open(f)) for f in sorted(glob.glob(os.path.join(ROOT, "props", "C*.json")))}
+META = {k: v["manifest"] for k, v in PROPS.items()}
+ALL = ["C%02d" % i for i in range(1, 21)]
+NA_REASONS = json.load(open(os.path.join(ROOT, "props", "not_applicable.json")))
+NOT_APPLICABLE = [{"property_id": p, "reason": NA_REASONS.get(p, "not yet claimed: the model, theorems and tie for this property are still being built (DESIGN.md §10)")} for p in ALL if p not in PROPS]
+HOOK_COMMITS = subprocess.run(["git", "-C", "/repo", "log", "--format=%H", "--grep=^verif hooks"], capture_output=True, text=True).stdout.split()
 
 checks = []
 for pid in sorted(PROPS):
